@@ -46,7 +46,7 @@ ASSUMPTIONS = ["the pool is well-behaved (stores demand writes)", "floats are ex
 OUTSIDE = ["formatted log text", "Buffer flushing (C09)", "logger names/levels outside the catalogues"]
 
 LEVELS = [5, logging.DEBUG, logging.INFO, logging.WARNING, 55]
-NAMES = [None, "verif.c16.a", "verif.c16.b.c"]
+NAMES = [None, "verif.c16.a", "verif.c16.b.c", ""]  # "" is the root logger
 KINDS = ("plain", "logger", "standardiser", "buffer")
 OPS = ("read", "write", "change")
 
@@ -105,8 +105,8 @@ def stack(ctx, layers, ops):
                 level = LEVELS[ctx.choice("level%d" % i, len(LEVELS))]
                 name = NAMES[ctx.choice("name%d" % i, len(NAMES))]
                 owner = [None]
-                expected = name if name is not None else type(below).__qualname__
-                lg = logging.getLogger(expected)
+                lg = logging.getLogger(name if name is not None else type(below).__qualname__)
+                expected = lg.name
                 owners.append(owner)
                 h = Capture(owner, pool, sink, owners)
                 old = (lg.level, lg.propagate, lg.disabled)
